@@ -1207,8 +1207,10 @@ class Machine(object):
         if isinstance(x, Adt):
             if x.ty in ('Goal', 'DFSGoal'):
                 return x.ty
-            if depth < 4:
+            if depth < 5:
                 for f in x.fields:
+                    if isinstance(f, Ref):
+                        f = self.deref_all(f)
                     if isinstance(f, Adt):
                         g = self.goal_kind(f, depth + 1)
                         if g:
